@@ -1599,39 +1599,60 @@ static void emit_text(Obj *prog) {
 
     // Save arg registers if function is variadic
     if (fn->va_area) {
-      int gp = 0, fp = 0;
+      // Count the registers taken by the named parameters and find the
+      // end of the named parameters that were passed on the stack.
+      int gp = 0, fp = 0, overflow = 16;
       for (Obj *var = fn->params; var; var = var->next) {
-        if (is_flonum(var->ty))
+        Type *ty = var->ty;
+
+        if (var->offset > 0) {
+          overflow = MAX(overflow, align_to(var->offset + ty->size, 8));
+          continue;
+        }
+
+        switch (ty->kind) {
+        case TY_STRUCT:
+        case TY_UNION:
+          if (has_flonum1(ty))
+            fp++;
+          else
+            gp++;
+          if (ty->size > 8) {
+            if (has_flonum2(ty))
+              fp++;
+            else
+              gp++;
+          }
+          break;
+        case TY_FLOAT:
+        case TY_DOUBLE:
           fp++;
-        else
+          break;
+        default:
           gp++;
+        }
       }
 
       int off = fn->va_area->offset;
 
       // va_elem
-      println("  movl $%d, %d(%%rbp)", gp * 8, off);          // gp_offset
-      println("  movl $%d, %d(%%rbp)", fp * 8 + 48, off + 4); // fp_offset
-      println("  movq %%rbp, %d(%%rbp)", off + 8);            // overflow_arg_area
-      println("  addq $16, %d(%%rbp)", off + 8);
-      println("  movq %%rbp, %d(%%rbp)", off + 16);           // reg_save_area
+      println("  movl $%d, %d(%%rbp)", gp * 8, off);           // gp_offset
+      println("  movl $%d, %d(%%rbp)", fp * 16 + 48, off + 4); // fp_offset
+      println("  movq %%rbp, %d(%%rbp)", off + 8);             // overflow_arg_area
+      println("  addq $%d, %d(%%rbp)", overflow, off + 8);
+      println("  movq %%rbp, %d(%%rbp)", off + 16);            // reg_save_area
       println("  addq $%d, %d(%%rbp)", off + 24, off + 16);
 
-      // __reg_save_area__
+      // __reg_save_area__: six 8-byte GP slots followed by eight
+      // 16-byte XMM slots, as laid out by the x86-64 psABI.
       println("  movq %%rdi, %d(%%rbp)", off + 24);
       println("  movq %%rsi, %d(%%rbp)", off + 32);
       println("  movq %%rdx, %d(%%rbp)", off + 40);
       println("  movq %%rcx, %d(%%rbp)", off + 48);
       println("  movq %%r8, %d(%%rbp)", off + 56);
       println("  movq %%r9, %d(%%rbp)", off + 64);
-      println("  movsd %%xmm0, %d(%%rbp)", off + 72);
-      println("  movsd %%xmm1, %d(%%rbp)", off + 80);
-      println("  movsd %%xmm2, %d(%%rbp)", off + 88);
-      println("  movsd %%xmm3, %d(%%rbp)", off + 96);
-      println("  movsd %%xmm4, %d(%%rbp)", off + 104);
-      println("  movsd %%xmm5, %d(%%rbp)", off + 112);
-      println("  movsd %%xmm6, %d(%%rbp)", off + 120);
-      println("  movsd %%xmm7, %d(%%rbp)", off + 128);
+      for (int i = 0; i < 8; i++)
+        println("  movsd %%xmm%d, %d(%%rbp)", i, off + 72 + i * 16);
     }
 
     // Save passed-by-register arguments to the stack
